@@ -238,6 +238,23 @@ CLAIMED["C08"] = dict(
          "the bound is stated. The top-level glue (_evaluate_clips, score mean over clips) is covered by the stand-in only.",
     technique=TECH + ", bounded in list length for evaluate_clip; callee contracts from C06/C07/C19; exhaustive stand-in",
 )
+CLAIMED["C09"] = dict(
+    level="other",
+    text="Deductive: tables read from the real ASTs of the four task modules and of soundevent.terms.metrics (each row pairs a term "
+         "with the metric function of that name; terms of one table pairwise different; metric terms have pairwise different names "
+         "and labels); true_class_probability against its definition; the per-item wiring of clip_classification and "
+         "sound_event_classification (value under the term = that metric of the encoded truth and scores); the three "
+         "_compute_overall_score functions (bounded 0-3 clips); the metrics field of Evaluation / ClipEvaluation / Match through "
+         "the real AOEF adapters as (label, value) lists. The numerical clauses -- accuracy, balanced accuracy, top-3 accuracy, mean "
+         "average precision, average precision, Jaccard index with the extra 'none' class, order independence, the end-to-end "
+         "save/load -- run inside scikit-learn and are decided by the bounded stand-in metric_values (4 tasks, vocabulary 2-4, "
+         "1-8 items, empty clips) against references written from the definitions in plain numpy.",
+    note="Three defects found by the stand-in were fixed in /repo (317d19c mean_average_precision micro-averaged multilabel input, "
+         "018e3c6 three run metrics all labelled Balanced Accuracy in sound_event_classification, 303d270 NaN score for an empty "
+         "clip). scikit-learn's metric functions are outside any contract within reach: the wrappers' numpy steps (np.c_, argmax, "
+         "boolean masks) are checked by the stand-in only, so the level is `other`, not `proof`.",
+    technique=TECH + " for tables, wiring, score means and the AOEF metrics mapping; bounded stand-in (labelled bounded) for the scikit-learn backed values",
+)
 ALL = [f"C{n:02d}" for n in range(1, 21)]
 NOT_APPLICABLE = {p: "check not built yet in this session (work in progress; see DESIGN.md section 12 build order)"
                   for p in ALL if p not in CLAIMED}
